@@ -203,3 +203,50 @@ def run(F, rep, tier):
                                 produced.add(str(o_["c"]).split("::")[-1])
                 if produced:
                     rep.check(kind in produced, "C10-R6", "selector:%s" % kind, "codeblock_sigil maps TokenKind::%s to %s, which produces %s" % (kind, fn, sorted(produced)))
+    # ---- R7: the namespace id is the hash of the WHOLE fence name
+    rep.rule("C10-R7", "code_block: the namespace id is hash_str of the fence name with only the fixed `mech`/`mec`/robot prefix and `:` stripped - no splitting, truncation or case folding (two different names would share a namespace)")
+    INJECTIVE = {"trim_start_matches", "to_string", "as_str", "clone", "to_owned", "as_ref", "borrow"}
+    cb = [it for it in F.syn("mech_syntax.lib") if it["k"] == "fn" and it["name"] == "code_block"]
+    if rep.check(len(cb) == 1, "C10-R7", "anchor:code_block-syn", "code_block not found in the syntax tree dump"):
+        body = cb[0]["body"]
+        configs = [s for s in find(body, "struct") if s[1].split("::")[-1] == "BlockConfig"]
+        ns = []
+        for s in configs:
+            for fname, fval in s[2]:
+                if fname == "namespace" and any(path_of(c[1]) and path_of(c[1]).split("::")[-1] == "hash_str" for c in find(fval, "call")):
+                    for c in find(fval, "call"):
+                        if path_of(c[1]) and path_of(c[1]).split("::")[-1] == "hash_str" and c[2]:
+                            ns.append(c[2][0])
+        rep.floor("C10-R7", "BlockConfig constructions hashing a name", len(ns), 1)
+        lets = {}
+        for st in find(body, "let"):
+            if len(st) == 4 and st[2] is not None and st[1][0] == "pident":
+                lets.setdefault(st[1][1], []).append(st[2])
+        for arg in ns:
+            base = arg
+            while is_node(base) and base[0] in ("ref", "paren"):
+                base = base[2] if base[0] == "ref" else base[1]
+            name = path_of(base)
+            chain_bad = []
+            seen_defs = 0
+
+            def chain(e, depth=0):
+                nonlocal seen_defs
+                if depth > 12 or not is_node(e):
+                    return
+                if e[0] == "mcall":
+                    if e[2] not in INJECTIVE:
+                        chain_bad.append(e[2])
+                    chain(e[1], depth + 1)
+                elif e[0] in ("ref", "paren", "try"):
+                    chain(e[2] if e[0] == "ref" else e[1], depth + 1)
+                elif e[0] == "path":
+                    for d in lets.get(e[1], []):
+                        seen_defs += 1
+                        chain(d, depth + 1)
+                elif e[0] in ("call", "index", "field", "if", "match", "block", "macro"):
+                    chain_bad.append(render(e)[:30])
+            chain(arg)
+            rep.check(not chain_bad and seen_defs >= 1, "C10-R7", "namespace-is-hash-of-whole-name" if not chain_bad else "namespace-derivation:%s" % ",".join(sorted(set(chain_bad)))[:60],
+                      "code_block computes the namespace id from `%s`, which is derived from the fence tag through %s: names that differ only in the discarded part share one namespace" % (render(arg)[:30], sorted(set(chain_bad))),
+                      "code_block (mech_syntax.lib)", sample={"hashed": render(arg), "definitions_followed": seen_defs})
